@@ -743,6 +743,9 @@ def replay_ess_factory(m, n, p, d, xs):
                 for _ in range(nn * p):
                     x = phi * x + rnd.gauss(0, 1)
                     row.append(round(x + (0.5 * j if k % 2 else 0), 3))
+                if k in (1, 3, 4, 7):
+                    # the same chains at a small scale (exact power of two): ESS is scale invariant, an absolute fudge term is not
+                    row = [v * 2.0 ** -10 for v in row]
                 halves.append(row)
             n_eff = nn
             c0 = m // 2
